@@ -2,6 +2,7 @@ import KM.Model.GoLite
 import KM.Model.GoTypes
 import KM.Gen.GoSeal
 import KM.Gen.GoGate
+import KM.Gen.GoInject
 /-! # C09 — `unsealCA` as TRANSLATED from the current source (go2lean)
 
 The whole injection step is translated from /repo's working tree on every run (`KM/Gen/GoSeal.lean`): the mutex
@@ -137,3 +138,42 @@ theorem c09_go_locked_gate (signerNil : Bool) :
   cases signerNil <;> rfl
 
 end KM.Seal
+
+/-! ## `secretInjectorHandler`, the whole handler (`KM/Gen/GoInject.lean`) -/
+namespace KM.InjectGo
+open KM.GoTypes KM.Go
+
+/-- **closed form of the translated handler** -/
+theorem inject_eq (ext : InjectExt) (noTLS noChains : Bool) (client : List Char) (formPw : List (List Char) × Bool) :
+    (KM.Gen.GoInject.secretInjectorHandler ext noTLS noChains client formPw).2 =
+      if noTLS then [.status 500]
+      else if noChains then [.status 403]
+      else if !formPw.2 then [.status 400]
+      else [.unseal (formPw.1.headD []) client,
+            .status (if (ext.unsealResult (formPw.1.headD []) client).isSome then 400 else 200)] := by
+  obtain ⟨pws, ok⟩ := formPw
+  unfold KM.Gen.GoInject.secretInjectorHandler
+  dsimp only
+  cases noTLS
+  · cases noChains
+    · cases ok
+      · simp
+      · cases h : ext.unsealResult (pws.headD []) client <;> simp [h]
+    · simp
+  · simp
+
+/-- **only a request over TLS with a verified client certificate can deliver a passphrase** (C09), on the translated
+source: `unsealCA` is called at most once, only when the connection is TLS and carries at least one verified chain and
+the form holds `ssh_ca_password`; it is called with that field's first value and the common name of the verified leaf;
+and the handler answers 200 exactly when that call returned no error. -/
+theorem c09_go_injector (ext : InjectExt) (noTLS noChains : Bool) (client : List Char)
+    (formPw : List (List Char) × Bool) :
+    (∀ pw c, InjectEffect.unseal pw c ∈ (KM.Gen.GoInject.secretInjectorHandler ext noTLS noChains client formPw).2 →
+      noTLS = false ∧ noChains = false ∧ formPw.2 = true ∧ pw = formPw.1.headD [] ∧ c = client) ∧
+    (InjectEffect.status 200 ∈ (KM.Gen.GoInject.secretInjectorHandler ext noTLS noChains client formPw).2 ↔
+      noTLS = false ∧ noChains = false ∧ formPw.2 = true ∧ ext.unsealResult (formPw.1.headD []) client = none) := by
+  rw [inject_eq]
+  obtain ⟨pws, ok⟩ := formPw
+  cases noTLS <;> cases noChains <;> cases ok <;> simp
+
+end KM.InjectGo
